@@ -5,6 +5,8 @@
    operation lines: PERM, ADD, UPDATE, GET, CLEANUP, TICK, DUMP of BrokerRun.v, plus
      40 SUBQ  p extras sql_text query       -> [0 handle] | [1 kind], then the initial response if any
      41 QDROP handle                 -> [0]
+     42 SUBQS p extras sql_text query       as 40, through the sdv Subscribe handler (its replies are maps: the
+                                            comparison sorts the fields by name, a repeated name keeps the last)
    After every UPDATE the responses sent to the query subscribers follow the result line:
      [110 handle n (name value)*]   in subscription order.
    query ::= nproj pitem* whereflag [qexpr];  pitem ::= 0 qexpr | 1 qexpr alias | 2
@@ -233,7 +235,9 @@ Definition q_step (qs0 : qstate) (l : list Z) : qstate * list (list Z) :=
   let st := tick_clock (q_core qs0) in
   let qs := q_set_core qs0 st in
   match l with
-  | 40 :: p :: ex :: r =>
+  | 40 :: p :: ex :: r | 42 :: p :: ex :: r =>
+    (* 42: the same subscription opened through sdv.databroker.v1 Broker::Subscribe (the handler hands the
+       query text to subscribe_query and turns every response into a map name -> datapoint) *)
     match dec_str r with
     | Some (_, r') => match dec_query (negb (ex =? 0)) r' with
                       | Some q => q_subscribe qs (get_perm st p) q
